@@ -364,7 +364,8 @@ MANIFEST_META = {
                   "zero-padded superset, full canonical or binary layout) are evaluated on one algebra in the order base, variant, "
                   "base; the three results must be the same element or all raise. Exact operators are additionally anchored to the "
                   "independent reference."
-                  " Also: ndarray-backed storage of the same element (incl. two operands with cyclically shifted key orders), symbolic operands zero-padded to complete (and extra) grades in a graded algebra, and the operator as well as grade selection inside a registered function on base and variant storage.",
+                  " Also: ndarray-backed storage of the same element (incl. two operands with cyclically shifted key orders), symbolic operands zero-padded to complete (and extra) grades in a graded algebra, and the operator as well as grade selection inside a registered function on base and variant storage."
+                  " Storing the permuted variant into an array-valued container is refused or blade-wise right.",
     "level_note": "Metamorphic: compares kingdon with itself (plus reference anchoring for the exact operators). d<=4; cost caps on "
                   "inverse-like operators; sqrt/exp only inside their documented domains.",
 }
